@@ -32,7 +32,8 @@ Proof.
   destruct (ip_eqb k k') eqn:E; auto. ipeq. subst k'. rewrite L. unfold aof. cbn. rewrite M, O. reflexivity.
 Qed.
 
-(* ---- the recorded defect: one Notify, two identical notifications ---- *)
+(* ---- the repaired defect (fix of session.go notify): the witness history of the former finding
+   c06-duplicate-dhcp-path-offline-offer now yields ONE notification ---- *)
 Definition dup_history : list op :=
   [ DHCPv4Update ex_mac1 (IP4 3232235521) 1 10;
     Rx {| f_src := ex_mac1; f_class := FIP4; f_ip := IP4 0; f_arpmac := 0; f_dhcp4 := true |} 20; Notify; Drain;
@@ -40,13 +41,14 @@ Definition dup_history : list op :=
     NameUpdate KMdns (IP4 3232235521) 2;
     Rx {| f_src := ex_mac1; f_class := FIP4; f_ip := IP4 0; f_arpmac := 0; f_dhcp4 := true |} 410 ].
 
-Lemma dup_refuted :
+Lemma dup_fixed :
   let s := run std_cfg ex_s0 dup_history in
   known_C06_dup s = true /\ chan s = [] /\
-  exists n, chan (fst (step std_cfg s Notify)) = [n; n] /\ nt_ip n = IP4 3232235521 /\ nt_online n = false.
+  exists n, chan (fst (step std_cfg s Notify)) = [n] /\ nt_ip n = IP4 3232235521 /\ nt_online n = false /\
+            n_mdns (nt_names n) = 2.
 Proof.
   cbv zeta. split; [vm_compute; reflexivity|]. split; [vm_compute; reflexivity|].
-  eexists. split; [vm_compute; reflexivity|]. split; reflexivity.
+  eexists. split; [vm_compute; reflexivity|]. repeat split; reflexivity.
 Qed.
 
 (* ------------------------------------------------------------------ *)
@@ -104,26 +106,29 @@ Qed.
 Lemma filter_length_le' {A} (P : A -> bool) l : (List.length (filter P l) <= List.length l)%nat.
 Proof. induction l as [|x r IH]; simpl; auto. destruct (P x); simpl; lia. Qed.
 
-(* Notify for a host that is online with a notification pending: the offline notifications of other
-   addresses of the same MAC first, then exactly one online notification of the host itself *)
+(* Notify for a host with a notification pending: the offline notifications of OTHER addresses of the
+   same MAC first, then exactly one notification of the host itself, carrying its tracked online flag *)
 Theorem notify_host_shape k fl s h :
-  InvP s -> hlookup k (hosts s) = Some h -> h_dirty h = true -> h_online h = true ->
+  InvP s -> hlookup k (hosts s) = Some h -> h_dirty h = true ->
   (List.length (chan s) + List.length (mac_hosts (h_mac h) s) < chan_cap)%nat ->
   exists offs n,
     chan (notify_host k fl s) = chan s ++ offs ++ [n] /\
-    nt_ip n = k /\ nt_online n = true /\ nt_mac n = h_mac h /\
+    nt_ip n = k /\ nt_online n = h_online h /\ nt_mac n = h_mac h /\
     Forall (fun x => nt_online x = false /\ nt_ip x <> k /\ nt_mac x = h_mac h) offs /\
     NoDup (map nt_ip offs).
 Proof.
-  intros I L D O C. destruct (InvS_host _ _ _ (proj1 I) L) as (Hip & e & F & Ik).
+  intros I L D C. destruct (InvS_host _ _ _ (proj1 I) L) as (Hip & e & F & Ik).
   unfold notify_host. rewrite L, D. cbn [negb].
   set (l := if fl && is4 (h_ip h)
-            then filter (fun v => match hlookup v (hosts s) with Some x => negb (h_online x) && h_dirty x | None => false end)
+            then filter (fun v => negb (ip_eqb v k) &&
+                                  match hlookup v (hosts s) with Some x => negb (h_online x) && h_dirty x | None => false end)
                         (mac_hosts (h_mac h) s) else []).
-  assert (LP : forall v, In v l -> In v (mac_hosts (h_mac h) s) /\
+  assert (LP : forall v, In v l -> In v (mac_hosts (h_mac h) s) /\ v <> k /\
                exists x, hlookup v (hosts s) = Some x /\ h_online x = false).
   { intros v Iv. unfold l in Iv. destruct (fl && is4 (h_ip h)); [|destruct Iv]. apply filter_In in Iv.
-    destruct Iv as [Iv Pv]. split; auto. destruct (hlookup v (hosts s)) as [x|]; [|discriminate].
+    destruct Iv as [Iv Pv]. split; auto. apply andb_prop in Pv. destruct Pv as [NE Pv].
+    apply negb_true_iff in NE. ipeq. split; auto.
+    destruct (hlookup v (hosts s)) as [x|]; [|discriminate].
     exists x. split; auto. apply andb_prop in Pv. destruct Pv as [Pv _]. apply negb_true_iff in Pv. exact Pv. }
   assert (LL : (List.length l <= List.length (mac_hosts (h_mac h) s))%nat).
   { unfold l. destruct (fl && is4 (h_ip h)); [apply filter_length_le'|simpl; lia]. }
@@ -131,9 +136,9 @@ Proof.
   { unfold l. destruct (fl && is4 (h_ip h)); [|constructor]. apply NoDup_filter.
     unfold mac_hosts. rewrite F. apply (inv_listed_once s (InvP_Inv s I) e). apply find_mac_Some in F. apply F. }
   assert (NK : ~ In k l).
-  { intros Ik'. destruct (LP k Ik') as (_ & x & Lx & Ox). rewrite L in Lx. inversion Lx; subst. congruence. }
+  { intros Ik'. destruct (LP k Ik') as (_ & N & _). congruence. }
   destruct (fold_mo_chan l s I) as (ns & CH & MI & F1 & F2).
-  { intros v Iv. destruct (LP v Iv) as (_ & x & Lx & _). congruence. }
+  { intros v Iv. destruct (LP v Iv) as (_ & _ & x & Lx & _). congruence. }
   { lia. }
   set (s1 := fold_left (fun st v => make_offline v st) l s) in *.
   assert (L1 : hlookup k (hosts s1) = Some h).
@@ -154,18 +159,34 @@ Proof.
   - rewrite MI. exact LND.
 Qed.
 
-(* the Notify op on the frame of a host that has just come online *)
-Theorem notify_online_once_proof c s fr k h :
+(* the Notify op on a frame whose host has a notification pending *)
+Theorem notify_once_proof c s fr k h :
   Inv s -> lastf s = Some fr -> fr_host fr = Some k ->
-  hlookup k (hosts s) = Some h -> h_online h = true -> h_dirty h = true ->
+  hlookup k (hosts s) = Some h -> h_dirty h = true ->
   (List.length (chan s) + List.length (mac_hosts (h_mac h) s) < chan_cap)%nat ->
   exists offs n,
     chan (fst (step c s Notify)) = chan s ++ offs ++ [n] /\
-    nt_ip n = k /\ nt_online n = true /\ nt_mac n = h_mac h /\
+    nt_ip n = k /\ nt_online n = h_online h /\ nt_mac n = h_mac h /\
     Forall (fun x => nt_online x = false /\ nt_ip x <> k /\ nt_mac x = h_mac h) offs /\
     NoDup (map nt_ip offs).
 Proof.
-  intros I LF FH L O D C. cbn [step]. rewrite LF. cbn [fst]. unfold notify. rewrite FH.
+  intros I LF FH L D C. cbn [step]. rewrite LF. cbn [fst]. unfold notify. rewrite FH.
+  apply notify_host_shape; auto. apply Inv_InvP. exact I.
+Qed.
+
+(* the DHCP path of Notify: a frame without host, classified DHCPv4, for a MAC with a recorded offer *)
+Theorem notify_dhcp_path_once_proof c s fr e h :
+  Inv s -> lastf s = Some fr -> fr_host fr = None -> fr_dhcp4 fr = true ->
+  find_mac (fr_src fr) (macs s) = Some e -> is_valid (m_offer e) = true ->
+  hlookup (m_offer e) (hosts s) = Some h -> h_dirty h = true ->
+  (List.length (chan s) + List.length (mac_hosts (h_mac h) s) < chan_cap)%nat ->
+  exists offs n,
+    chan (fst (step c s Notify)) = chan s ++ offs ++ [n] /\
+    nt_ip n = m_offer e /\ nt_online n = h_online h /\ nt_mac n = h_mac h /\
+    Forall (fun x => nt_online x = false /\ nt_ip x <> m_offer e /\ nt_mac x = h_mac h) offs /\
+    NoDup (map nt_ip offs).
+Proof.
+  intros I LF FH DH FM V L D C. cbn [step]. rewrite LF. cbn [fst]. unfold notify. rewrite FH, DH, FM, V, L. cbn [negb].
   apply notify_host_shape; auto. apply Inv_InvP. exact I.
 Qed.
 
